@@ -397,6 +397,17 @@ class Flow:
                         nxt.append((evs, out))
                         continue
                     if v.get('init') is not None:
+                        # int retVal = inflateInto(dst, size, src, n);  a file-local / private helper that only returns one expression is
+                        # evaluated in place (its parameters bound to the arguments), so that the call it wraps is seen on the path
+                        i0 = strip_all_casts(v['init'])
+                        if isinstance(i0, dict) and i0.get('k') == 'Call' and i0.get('calleeInRoot') and i0.get('fn') not in self.ANCHOR_SIMPLE:
+                            try:
+                                import rules_pipeline
+                                r_ = rules_pipeline._inline_value_helper(i0, ctx['fn'], 0) if rules_pipeline._FACTS[0] is not None else None
+                            except Exception:
+                                r_ = None
+                            if r_ is not None:
+                                v = dict(v, init=r_)
                         for evs2, out2 in self._expr_events(v['init'], ctx):
                             if out2 == 'normal':
                                 nxt.append((evs + evs2 + [{'ev': 'decl', 'var': v, 'l': s.get('l')}], 'normal'))
